@@ -53,14 +53,39 @@ def merge(s1, s2):
     out = State()
     both = simp(z3.Or(d1, d2))
     out.pc = s1.pc[:n] + ([] if z3.is_true(both) else [both])
+    phi = {}
     for name in s1.vars:
         if name not in s2.vars:
             continue
         (v1, e1), (v2, e2) = s1.vars[name], s2.vars[name]
+        if isinstance(v1, Ptr) and isinstance(v2, Ptr) and v1.region is not v2.region \
+                and v1.region is not None and v2.region is not None and v1.region.ctype == v2.region.ctype \
+                and v1.region.elem != "ptr":
+            # the pointer addresses different buffers on the two paths (e.g. S = realloc(...) on one of them):
+            # continue with one merged buffer whose content, length and liveness are selected by the path; the
+            # two originals are not reachable through this variable any more and are treated as dead
+            key = (v1.region.id, v2.region.id)
+            if key not in phi:
+                r = Region("phi(%s|%s)" % (v1.region.name, v2.region.name), v1.region.ctype, "heap")
+                m1, m2 = s1.mem[v1.region.id], s2.mem[v2.region.id]
+                phi[key] = (r, Mem(z3.If(sel, m1.vals, m2.vals), z3.If(sel, m1.defd, m2.defd),
+                                   simp(z3.If(sel, m1.alive, m2.alive)), z3.If(sel, m1.length, m2.length)))
+                ex = merge.executor
+                if ex is not None:
+                    ex.region_by_id[r.id] = r
+                    if v1.region.id in ex.heap_owned or v2.region.id in ex.heap_owned:
+                        ex.heap_owned.add(r.id)
+                        ex.heap_owned.discard(v1.region.id)
+                        ex.heap_owned.discard(v2.region.id)
+            r, _ = phi[key]
+            off = v1.off if v1.off.eq(v2.off) else z3.If(sel, v1.off, v2.off)
+            e = e1 if e1.eq(e2) else simp(z3.If(sel, e1, e2))
+            out.vars[name] = (Ptr(r, off, v1.pointee), e)
+            continue
         try:
             v = merge_val(sel, v1, v2)
         except Unsupported:
-            # a pointer that differs between the paths becomes unusable (undefined) after the join
+            # a pointer that differs between the paths in any other way becomes unusable (undefined) after the join
             out.vars[name] = (v1, z3.BoolVal(False))
             continue
         e = e1 if e1.eq(e2) else simp(z3.If(sel, e1, e2))
@@ -86,11 +111,19 @@ def merge(s1, s2):
                     cells[k] = merge_val(sel, m1.cells[k], m2.cells[k])
         out.mem[rid] = Mem(mg(m1.vals, m2.vals), mg(m1.defd, m2.defd), simp(mg(m1.alive, m2.alive)),
                            mg(m1.length, m2.length), cells)
+    for (i1, i2), (r, m) in phi.items():
+        out.mem[r.id] = m
+        for rid in (i1, i2):
+            if rid in out.mem:
+                out.mem[rid].alive = z3.BoolVal(False)
     if s1.retval is not None or s2.retval is not None:
         if s1.retval is None or s2.retval is None:
             raise Unsupported("return with and without value")
         out.retval = merge_val(sel, s1.retval, s2.retval)
     return out
+
+
+merge.executor = None
 
 
 def add_exit(exits, key, st):
@@ -126,7 +159,8 @@ class StmtMixin:
             ks = kids(node)
             if ks:
                 state.retval = self.rvalue(state, ks[0])
-            return {"return": state}
+            self.return_states.append((state, node))
+            return {}
         if k == "BreakStmt":
             return {"break": state}
         if k == "ContinueStmt":
@@ -890,17 +924,25 @@ class StmtMixin:
 
     def run(self):
         self.heap_owned = set()
+        self.return_states = []
+        merge.executor = self
         st = self.setup()
         body = [c for c in kids(self.node) if c.get("kind") == "CompoundStmt"][0]
         ex = self.exec_stmt(st, body)
-        end = merge(ex.pop("fall", None), ex.pop("return", None))
+        end = ex.pop("fall", None)
         for key in ex:
             raise Unsupported("control leaves function body by %s" % (key,))
-        self.end = end
-        if end is None or dead(end):
+        ends = [(s_, n_) for s_, n_ in self.return_states if not dead(s_)]
+        if end is not None and not dead(end):
+            ends.append((end, None))
+        self.end = ends[-1][0] if ends else None
+        if not ends:
             self.notes.append("function exit unreachable")
             return
-        self.check_exit(end)
+        # every way of leaving the function is checked against the postcondition separately
+        for i, (s_, n_) in enumerate(ends):
+            self.exit_tag = "" if len(ends) == 1 else ("ret%d:" % i)
+            self.check_exit(s_)
 
     def check_exit(self, end):
         c = self.c
@@ -916,24 +958,24 @@ class StmtMixin:
         ns = self.namespace(end, self.entry, result=result, formals_at_entry=True)
         for tag, s in self.clauses(c.asserts.get("end", [])):
             g = K.evaluate(s, ns)
-            self.oblige(end, "assert", None, g, label="end:" + norm_text(s), prop=tag)
+            self.oblige(end, "assert", None, g, label=self.exit_tag + "end:" + norm_text(s), prop=tag)
             self.fact(end, g)
         for i, (prop, txt) in enumerate(self.clauses(c.ensures)):
-            self.oblige(end, "ensures", None, K.evaluate(txt, ns), label=norm_text(txt), prop=prop)
+            self.oblige(end, "ensures", None, K.evaluate(txt, ns), label=self.exit_tag + norm_text(txt), prop=prop)
         for name, rng in c.outputs.items():
             lo, hi = [K.evaluate(x, ns) for x in rng.split("..")]
             view = ns[name]
             self.oblige(end, "output-defined", None, smt.forall(lo, hi, lambda q: view.defined(q)),
-                        label="%s[%s]" % (name, norm_text(rng)))
+                        label="%s%s[%s]" % (self.exit_tag, name, norm_text(rng)))
         # frame: pointer parameters not listed in assigns keep their content
         for name in self.param_names:
             v, d = self.entry.vars[name]
             if isinstance(v, Ptr) and v.region.elem != "ptr" and name not in c.assigns:
                 m0, m1 = self.entry.mem[v.region.id], end.mem[v.region.id]
                 if not m0.vals.eq(m1.vals):
-                    self.oblige(end, "frame", None, m0.vals == m1.vals, label=name)
+                    self.oblige(end, "frame", None, m0.vals == m1.vals, label=self.exit_tag + name)
                 if not z3.is_true(simp(m1.alive)):
-                    self.oblige(end, "frame", None, m1.alive, label=name + ":freed")
+                    self.oblige(end, "frame", None, m1.alive, label=self.exit_tag + name + ":freed")
         # heap: everything allocated here and not handed out is freed
         ret_region = end.retval.region.id if isinstance(end.retval, Ptr) and end.retval.region is not None else None
         for rid in sorted(self.heap_owned):
@@ -941,7 +983,7 @@ class StmtMixin:
                 continue
             reg = self.region_by_id.get(rid)
             self.oblige(end, "leak", None, z3.Not(end.mem[rid].alive),
-                        label=getattr(reg, "label", None) or (reg.name if reg else "heap"))
+                        label=self.exit_tag + (getattr(reg, "label", None) or (reg.name if reg else "heap")))
 
 
 def install(cls):
